@@ -176,6 +176,18 @@ fn encrypt_chunks<T: Read, U: Write>(
     Ok(())
 }
 
+/// Verification hook: [`encrypt_chunks`] with a caller-chosen key, AAD and chunk size.
+#[cfg(feature = "verif")]
+pub fn verif_encrypt_chunks<T: Read, U: Write>(
+    plaintext: &mut T,
+    ciphertext: &mut U,
+    key: &[u8],
+    aad: &[u8],
+    chunk_size: u32,
+) -> Result<(), EncryptError> {
+    encrypt_chunks(plaintext, ciphertext, key, aad, chunk_size)
+}
+
 fn read_err(err: std::io::Error) -> EncryptError {
     EncryptError::IORead(err)
 }
